@@ -21,6 +21,9 @@ type SolveResult struct {
 	Output  string
 	Model   map[string]string
 	Tried   []string
+	// Candidate: the model was obtained after dropping the quantified assumptions of an undecided query. It proves
+	// nothing by itself; it is only handed to the replay, and counts if the real code then exhibits the violation.
+	Candidate bool
 }
 
 type solverSpec struct {
@@ -126,6 +129,12 @@ func newSolver(outDir string, quickT, longT int) *Solver {
 
 // solve discharges one query. wantSat: reachability query (sat expected).
 func (sv *Solver) solve(name, script string, modelTerms []string, wantSat bool) *SolveResult {
+	return sv.solveH(name, script, modelTerms, nil, wantSat)
+}
+
+// solveH: as solve; hints are staged extra assertions tried (most restrictive first) when a model is fetched, so that
+// the counterexample handed to the replay is small (short slices) whenever a small one exists.
+func (sv *Solver) solveH(name, script string, modelTerms []string, hints [][]string, wantSat bool) *SolveResult {
 	h := sha256.Sum256([]byte(script))
 	key := hex.EncodeToString(h[:8])
 	sv.mu.Lock()
@@ -188,7 +197,16 @@ func (sv *Solver) solve(name, script string, modelTerms []string, wantSat bool) 
 		sv.mu.Unlock()
 	}
 	if res.Answer == "sat" && !wantSat && len(modelTerms) > 0 {
-		res.Model = sv.getModel(file, script, modelTerms)
+		res.Model = sv.getModel(file, script, modelTerms, hints)
+	}
+	if res.Answer != "sat" && res.Answer != "unsat" && !wantSat && len(modelTerms) > 0 {
+		// undecided: look for a candidate counterexample of the quantifier-free part (to be confirmed by replay only)
+		if weak, dropped := dropQuantifiedAsserts(script); dropped > 0 {
+			if m := sv.getModel(file, weak, modelTerms, hints); m != nil {
+				res.Model, res.Candidate = m, true
+				res.Tried = append(res.Tried, fmt.Sprintf("candidate-model:%d quantified assumptions dropped", dropped))
+			}
+		}
 	}
 	if (res.Answer == "unsat" && !wantSat || res.Answer == "sat" && wantSat) && (os.Getenv("GOVC_KEEP") == "" || res.Seconds < 1.5) {
 		os.Remove(file)
@@ -225,7 +243,19 @@ func (sv *Solver) solveQuick(name, script string) *SolveResult {
 	return res
 }
 
-func (sv *Solver) getModel(file, script string, terms []string) map[string]string {
+func (sv *Solver) getModel(file, script string, terms []string, hints [][]string) map[string]string {
+	for _, h := range hints {
+		if len(h) == 0 {
+			continue
+		}
+		if m := sv.getModel1(file, script+"(assert (and "+strings.Join(h, " ")+"))\n", terms, 5); m != nil {
+			return m
+		}
+	}
+	return sv.getModel1(file, script, terms, sv.longT)
+}
+
+func (sv *Solver) getModel1(file, script string, terms []string, timeout int) map[string]string {
 	mfile := strings.TrimSuffix(file, ".smt2") + ".model.smt2"
 	var sb strings.Builder
 	sb.WriteString("(set-option :produce-models true)\n")
@@ -236,7 +266,7 @@ func (sv *Solver) getModel(file, script string, terms []string) map[string]strin
 	}
 	os.WriteFile(mfile, []byte(sb.String()), 0o644)
 	for _, sp := range []solverSpec{solvers[0], solvers[1]} {
-		a, o, _ := runSolver(sp, mfile, sv.longT)
+		a, o, _ := runSolver(sp, mfile, timeout)
 		if a != "sat" {
 			continue
 		}
@@ -322,4 +352,25 @@ func extractValue(s string) string {
 		i = j
 	}
 	return strings.TrimSpace(inner[i:])
+}
+
+// dropQuantifiedAsserts removes the assertions that contain a quantifier, except the last assertion (the negated goal).
+func dropQuantifiedAsserts(script string) (string, int) {
+	lines := strings.Split(script, "\n")
+	last := -1
+	for i, l := range lines {
+		if strings.HasPrefix(l, "(assert ") {
+			last = i
+		}
+	}
+	var out []string
+	dropped := 0
+	for i, l := range lines {
+		if i != last && strings.HasPrefix(l, "(assert ") && (strings.Contains(l, "(forall ") || strings.Contains(l, "(exists ")) {
+			dropped++
+			continue
+		}
+		out = append(out, l)
+	}
+	return strings.Join(out, "\n"), dropped
 }
